@@ -153,6 +153,18 @@ Section NormProofs.
   Lemma append_keeps_names l n b k : In k (keys (view l)) -> In k (keys (view (MTar.append norm l n b))).
   Proof. unfold MTar.append. rewrite view_app, In_keys_apply_ops. tauto. Qed.
 
+  (* ---------------------------------------------------------------- members with header fields *)
+  Lemma strip_mappend ms n b : strip (MTar.mappend norm ms n b) = MTar.append norm (strip ms) n b.
+  Proof. unfold MTar.mappend, MTar.append, strip. rewrite map_app. reflexivity. Qed.
+
+  Lemma mappend_visible ms n b :
+    lookup (norm n) (MTar.mview norm (MTar.mappend norm ms n b)) = Some b /\
+    (forall m, m <> norm n -> lookup m (MTar.mview norm (MTar.mappend norm ms n b)) = lookup m (MTar.mview norm ms)).
+  Proof. unfold MTar.mview. rewrite strip_mappend. apply append_visible. Qed.
+
+  Lemma strip_rehdr (f : member -> hdr) ms : strip (map (fun m => (m_name m, f m, snd m)) ms) = strip ms.
+  Proof. unfold strip. rewrite map_map. apply map_ext. intros [[n h] b]. reflexivity. Qed.
+
   (* ---------------------------------------------------------------- packing a folder *)
   Lemma last_write_In n ops :
     NoDup (map nkey ops) -> forall b, (last_write n ops = Some b <-> In (n, b) (map nentry ops)).
